@@ -4,7 +4,9 @@
 // (= blocked_by_shape = the cpp2v translation of newBlockingShape's loop, Avoid/BlockingGen.v).
 //
 // Input, one query per line:   B k x1 y1 .. xk yk  e1x e1y e2x e2y
-// Output per query:            B <firstBlocker != 0> <newBlockingShape blocked the edge>      or   EXC <what>
+//                              D k' x y ..  k x y ..  e1x e1y e2x e2y      (a first polygon, shape 1, then the polygon under test, shape 2:
+//                                                     firstBlocker walks both, so the per-shape reset of the flag is exercised)
+// Output per query:            B <firstBlocker != 0> <newBlockingShape (polygon under test) blocked the edge>      or   EXC <what>
 //
 // Per query a fresh polyline Router holds the polygon as shape 1 (made active by processTransaction(), so its vertices are
 // in Router::vertices, which firstBlocker walks); the edge joins two free-standing vertices with shape-like ids (not
@@ -32,25 +34,33 @@ int main()
     {
         std::istringstream in(line);
         std::string tag;
-        if (!(in >> tag) || tag != "B") continue;
+        if (!(in >> tag) || (tag != "B" && tag != "D")) continue;
         int k; in >> k;
+        Polygon first(k);
+        if (tag == "D")
+        {
+            for (int j = 0; j < k; ++j) { double x, y; in >> x >> y; first.ps[j] = Point(x, y); }
+            in >> k;
+        }
         Polygon poly(k);
         for (int j = 0; j < k; ++j) { double x, y; in >> x >> y; poly.ps[j] = Point(x, y); }
+        const int pid = (tag == "D") ? 2 : 1;
         double ax, ay, bx, by; in >> ax >> ay >> bx >> by;
         try
         {
             Router *router = new Router(PolyLineRouting);
             router->setTransactionUse(true);
-            new ShapeRef(router, poly, 1);
+            if (tag == "D") new ShapeRef(router, first, 1);
+            new ShapeRef(router, poly, pid);
             router->processTransaction();
-            VertInf *a = new VertInf(router, VertID(2, 0), Point(ax, ay), false);
-            VertInf *b = new VertInf(router, VertID(3, 0), Point(bx, by), false);
+            VertInf *a = new VertInf(router, VertID(7, 0), Point(ax, ay), false);
+            VertInf *b = new VertInf(router, VertID(8, 0), Point(bx, by), false);
             EdgeInf *e = new EdgeInf(a, b);
             int fb = e->firstBlocker();
             e->setDist(1.0);
-            router->newBlockingShape(poly, 1);
+            router->newBlockingShape(poly, pid);
             bool nb = !(e->m_added && e->m_visible);
-            if (nb && e->blocker() != 1) { printf("EXC edge left the visibility graph with blocker %d\n", e->blocker()); }
+            if (nb && e->blocker() != pid) { printf("EXC edge left the visibility graph with blocker %d\n", e->blocker()); }
             else printf("B %d %d\n", fb != 0 ? 1 : 0, nb ? 1 : 0);
             // router, vertices and edge are leaked deliberately (see c03_route.cpp)
         }
